@@ -66,8 +66,11 @@ theorem WL.applyResults (a : Pid) : ∀ (rs : Results) (w : WorkerSt), WL w → 
   | [], _, h => h
   | (t0, some r) :: rest, w, h => by
     unfold QM.Sys.applyResults; exact WL.applyResults a rest _ (h.notifyResult a t0 r)
-  | (_, none) :: rest, w, h => by
-    unfold QM.Sys.applyResults; exact WL.applyResults a rest w h
+  | (t0, none) :: rest, w, h => by
+    unfold QM.Sys.applyResults
+    refine WL.applyResults a rest _ ?_
+    unfold WorkerSt.notifyPending
+    exact h.modProc a _ (fun y => rfl)
 
 theorem WL.foldl {α : Type} (f : WorkerSt → α → WorkerSt) (hf : ∀ w a, WL w → WL (f w a)) :
     ∀ (l : List α) (w : WorkerSt), WL w → WL (l.foldl f w)
